@@ -6,6 +6,7 @@ mod c_inflights;
 mod c_quorum;
 mod c_memstorage;
 mod node;
+mod ptrace;
 mod sim;
 mod c_node;
 mod c_confchange;
